@@ -1,6 +1,7 @@
 import XrsVerif.Core.Wire
 import XrsVerif.Model.Bin
 import XrsVerif.Model.Jenks
+import XrsVerif.Model.PyNum
 import XrsVerif.Gen.ClassifyFacts
 /-! driver commands for C12: the bin search (under the skeleton regenerated from the source), the
     classifiers' bin construction, the Jenks matrices and break extraction -/
@@ -22,14 +23,29 @@ def showRes : Res → String
   | .ok cls bins => showExts cls ++ "|" ++ showRats bins
   | .err k => "err:" ++ k
 
-/-- `bin bins=<nums> newv=<nums> vals=<nums>` -> the `_cpu_bin` output for each value -/
+/-- conversion of a value into a numpy dtype (finite values; float -> int conversions are not modelled) -/
+def castTo (t : String) : Ext Rat → Ext Rat
+  | .fin q => if t == "float32" then .fin (roundF32 q) else if t == "float64" then .fin (roundF64 q) else .fin q
+  | x => x
+
+/-- `bin bins=<nums> newv=<nums> vals=<nums> [ddt=<raster dtype>]` -> the `_cpu_bin` output for each value;
+    with `ddt` the request goes through `_run_numpy_bin`'s casts as found in the source -/
 def cmdBin (a : Args) : String := Id.run do
   let some bins := a.nums? "bins" | return "bad-args bins"
   let some newv := a.nums? "newv" | return "bad-args newv"
   let some vals := a.nums? "vals" | return "bad-args vals"
   if bins.isEmpty then return "err:empty-bins"
   let sh := if a.get? "shape" == some "canonical" then canonical else Gen.cpuBinShape
-  return showExts (vals.map fun v => cellS sh (bins.map toExt) (newv.map toExt) (toExt v))
+  match a.get? "ddt" with
+  | some ddt =>
+    return showExts (vals.map fun v => runNumpyBin sh Gen.runBinCasts castTo ddt (bins.map toExt) (newv.map toExt) (toExt v))
+  | none => return showExts (vals.map fun v => cellS sh (bins.map toExt) (newv.map toExt) (toExt v))
+
+/-- `round32 q=<num>` -> `np.float32` of the number (exact rational out) -/
+def cmdRound32 (a : Args) : String :=
+  match a.num? "q" with
+  | some (.fin q) => showRat (roundF32 q)
+  | _ => "bad-args q"
 
 /-- `equal_interval cells=<nums> k=K` -/
 def cmdEqualInterval (a : Args) : String := Id.run do
@@ -76,11 +92,11 @@ def cmdJenksBreaks (a : Args) : String := Id.run do
 def cmdFacts (_ : Args) : String :=
   s!"shape_ok={Gen.cpuBinShape.ok} canonical={decide (Gen.cpuBinShape = canonical)} kclass={Gen.jenksBreakDtype} " ++
   s!"nb_jenks={Gen.nbLastForcedJenks} nb_fallback={Gen.nbLastForcedFallback} qgrid={Gen.quantileGridIndexed} " ++
-  s!"eqint={Gen.eqIntLastForced}"
+  s!"eqint={Gen.eqIntLastForced} casts={decide (Gen.runBinCasts = ⟨.none, .none, .none, true⟩)} chain={Gen.binChainPassThrough}"
 
 def handlers : List (String × (Args → String)) := [
   ("bin", cmdBin), ("equal_interval", cmdEqualInterval), ("quantile", cmdQuantile),
   ("natural_breaks", cmdNaturalBreaks), ("jenks_mat", cmdJenksMat), ("jenks_breaks", cmdJenksBreaks),
-  ("class_facts", cmdFacts)]
+  ("class_facts", cmdFacts), ("round32", cmdRound32)]
 
 end XrsVerif.Driver.Classify
